@@ -213,3 +213,30 @@ def c04_security_reads_current_row(task):
             _res(out, "C04/lemma/%s.update-depends-only-on-the-current-row:%s" % (cls, k), ("C04",), hyps, And(S1.raised == S2.raised, map_equal(a, b)), rests_on="%s.update/post/* (functional spec)" % cls)
     out["samples"].append(dict(lemma="inputs differing at rows != idx(date) => identical post-state", classes=list(specs)))
     return out
+
+
+# ------------------------------------------------------------------------------------------- C15
+def c15_weight_lemmas(task):
+    out = dict(results=[], samples=[])
+    # TargetVol: scaling every weight by target/vol makes the ex-ante volatility equal to the target (two assets, general by
+    # degree-2 homogeneity of the quadratic form): vol(w) = sqrt(w' S w * ann), w' = w * tv / vol(w)
+    w1, w2, s11, s12, s22, ann, tv, v, v2 = (R(n) for n in ("w1", "w2", "s11", "s12", "s22", "ann", "tv", "vol", "vol_scaled"))
+    q = lambda a, b: a * a * s11 + 2 * a * b * s12 + b * b * s22
+    c = tv / v
+    hyps = [v > 0, tv >= 0, ann > 0, v * v == q(w1, w2) * ann, v2 >= 0, v2 * v2 == q(c * w1, c * w2) * ann]
+    _res(out, "C15/lemma/TargetVol-scaled-weights-have-the-target-volatility(2 assets)", ("C15",), hyps, v2 == tv, rests_on="TargetVol per-key scaling w_k * tv / vol (bounded stand-in) + homogeneity of the quadratic form")
+    # equal weights sum to one
+    n = z3.Int("n")
+    _res(out, "C15/lemma/equal-weights-sum-to-one", ("C15",), [n >= 1], z3.ToReal(n) * (1 / z3.ToReal(n)) == 1, rests_on="WeighEqually.__call__/each-weight-is-one-over-n")
+    # LimitDeltas: a capped key moves by exactly the limit towards the target (never past it)
+    cur, tgt, lim = R("cur"), R("tgt"), R("lim")
+    sgn = z3.If(tgt - cur > 0, 1, z3.If(tgt - cur < 0, -1, 0))
+    new = cur + lim * sgn
+    _res(out, "C15/lemma/capped-change-moves-towards-the-target-by-the-limit", ("C15",), [lim >= 0, z3.If(tgt - cur >= 0, tgt - cur, cur - tgt) > lim],
+         z3.And(z3.If(new - cur >= 0, new - cur, cur - new) == lim, z3.If(tgt >= cur, z3.And(new >= cur, new <= tgt), z3.And(new <= cur, new >= tgt))), rests_on="LimitDeltas.__call__/every-key clause")
+    # LimitWeights: a cap below 1/n cannot hold weights that sum to one
+    k = z3.Int("k")
+    cap, tot = R("cap"), R("total")
+    _res(out, "C15/lemma/cap-below-one-over-n-is-infeasible", ("C15",), [k >= 1, cap < 1 / z3.ToReal(k), tot <= z3.ToReal(k) * cap], tot < 1, rests_on="LimitWeights infeasibility test limit < 1/len(weights)")
+    out["samples"].append(dict(lemma="vol(w * tv / vol(w)) == tv"))
+    return out
